@@ -340,7 +340,8 @@ def checkOps (c0 : Case) : CaseResult := Id.run do
           -- Props/C12Ops (`*_same_terminals`) do not hold; counted to show that this happens
           if after.s.t.leaves.length != cur.s.t.leaves.length then
             stats := bumpStats stats s!"ops.leaf-count-changed.{kind}" 1
-          let nsrc (t : HTree) : Nat := (t.nodes.filter (·.isConnectorSource)).length
+          -- leaves marked as the source end of their connector (`writeEdgesToConns` reverses the route there)
+          let nsrc (t : HTree) : Nat := (t.nodes.filter (fun n => n.isConnectorSource && n.edges.length == 1)).length
           if nsrc after.s.t < nsrc cur.s.t then
             stats := bumpStats stats s!"ops.source-flag-dropped.{kind}" 1
         cur := after
